@@ -241,6 +241,30 @@ def gen_supersede(rng: Any, i: int) -> dict:
             "objects": [obj], "timeline": tl, "settings": {"execution.default_backoff": 1.0}, "end": t + 30.0}
 
 
+def gen_restart_supersede(rng: Any, i: int) -> dict:
+    """A cycle left open by a previous operator process (one resume handler finished, a sibling still retrying) is
+    superseded at the restart: the object was edited while the operator was down, so the new process sees an
+    update cause with the resuming handlers mixed in — the finished handler's record comes from the OTHER process."""
+    handlers = [
+        {"kind": "resume", "id": "r0", "opts": {}, "script": [rng.choice(["ok", "ok", "perm"])], "default": "ok"},
+        {"kind": "resume", "id": "r1", "opts": {"backoff": 1.0},
+         "script": [["temp", rng.choice([4.0, 6.0, 8.0])] for _ in range(rng.choice([2, 3]))], "default": "ok"},
+        {"kind": "update", "id": "u0", "script": [rng.choice(["ok", ["temp", 1.0]])], "default": "ok"},
+    ]
+    rng.shuffle(handlers)
+    essence = {"spec": {"x": 1}, "metadata": {"labels": {"l": "1"}}}
+    obj = {"name": "a", "body": {"spec": {"x": 1}, "metadata": {"labels": {"l": "1"}, "annotations": {
+        OWN_PREFIX + "last-handled-configuration": json.dumps(essence, separators=(",", ":")) + "\n"}}}}
+    t = rng.choice([1.0, 2.0, 3.0])
+    tl: list[list] = [[t, rng.choice(["stop", "kill"])],
+                      [t + 0.25, "edit", "a", rng.choice([{"spec": {"x": 2}}, {"metadata": {"labels": {"z": "1"}}}])],
+                      [t + rng.choice([0.5, 1.0, 2.0]), "start"]]
+    if rng.random() < 0.4:
+        tl.append([t + 4.0, "edit", "a", {"spec": {"x": 3}}])
+    return {"seed": i, "lifecycle": rng.choice(["asap", "one_by_one", "all_at_once"]), "handlers": handlers,
+            "objects": [obj], "timeline": tl, "settings": {"execution.default_backoff": 1.0}, "end": t + 40.0}
+
+
 def gen_foreign_burst(rng: Any, i: int) -> dict:
     """Several foreign events of the object queued between the event kopf works on and the echo of its own
     progress patch (another actor edits labels/status while a handler runs, or the echo is slow but well
@@ -509,6 +533,7 @@ def run(ctx: Ctx) -> None:
     scenarios = [gen_scenario(ctx.rng, ctx.seed * 100000 + i) for i in range(n)]
     scenarios += [gen_supersede(ctx.rng, 50_000_000 + ctx.seed * 100000 + i) for i in range(max(10, n // 4))]
     scenarios += [gen_foreign_burst(ctx.rng, 60_000_000 + ctx.seed * 100000 + i) for i in range(max(10, n // 4))]
+    scenarios += [gen_restart_supersede(ctx.rng, 65_000_000 + ctx.seed * 100000 + i) for i in range(max(10, n // 6))]
     for name, sc in _corpus():
         scenarios.insert(0, sc)
     results = pool.run_many(scenarios, wall=40.0)
